@@ -28,7 +28,9 @@ for entry, T in (("VP_C06_Server", T_S), ("VP_C06_Client", T_C)):
     # (two arbitrary status-code digits on the client cost ~270 s each: thorough tier only)
     heavy = [{"hole": h} for h in (9, 10, 81, 82, 83, 84)] if entry == "VP_C06_Client" else []
     I(entry, {"variant": 0, "sym": 2, "mode": 0, "seg": 1}, grid_range={"hole": [0, first + 20]}, tiers=("quick",), skip=heavy)
-    I(entry, {"variant": 0, "sym": 2, "mode": 0, "seg": 1}, grid_range={"hole": [first + 21, L0 - 2]}, tiers=("thorough",), skip=heavy, timeout_s=1500)
+    # (server: two arbitrary bytes inside "Connection: upgrade" of the second request exhaust the budget / get solver unknowns)
+    heavy_t = heavy if entry == "VP_C06_Client" else [{"hole": h} for h in range(118, 127)]
+    I(entry, {"variant": 0, "sym": 2, "mode": 0, "seg": 1}, grid_range={"hole": [first + 21, L0 - 2]}, tiers=("thorough",), skip=heavy_t, timeout_s=1500)
     if heavy:
         I(entry, {"variant": 0, "sym": 2, "mode": 0, "seg": 1}, grid={"hole": [h["hole"] for h in heavy]}, tiers=("thorough",), timeout_s=1500)
     I(entry, {"variant": 0, "sym": 3, "mode": 0, "seg": 1}, grid_range={"hole": [0, 7]}, tiers=("thorough",), timeout_s=1500)
@@ -38,7 +40,8 @@ for entry, T in (("VP_C06_Server", T_S), ("VP_C06_Client", T_C)):
     # every single cut point / pair of cut points of the unmodified templates
     for v in range(4):
         I(entry, {"variant": v, "sym": 0, "mode": 0, "seg": 4, "hole": 0})
-    I(entry, {"variant": 0, "sym": 0, "mode": 0, "seg": 5, "hole": 0}, tiers=("thorough",), conc_cap=100000, max_decisions=100000)
+    if entry == "VP_C06_Client":  # (the server template's pairs of cut points did not finish within the budget)
+        I(entry, {"variant": 0, "sym": 0, "mode": 0, "seg": 5, "hole": 0}, tiers=("thorough",), conc_cap=100000, max_decisions=100000)
     # fully arbitrary short inputs
     I(entry, {"arbitrary": 1, "seg": 2}, grid={"sym": [0, 1, 2, 3]})
     I(entry, {"arbitrary": 1, "seg": 2}, grid={"sym": [4]}, tiers=("thorough",))
@@ -52,8 +55,8 @@ spec = {
  "stubs": [{"target": "(net/http.Header).Write", "with": "github.com/bokysan/socketace/v2/internal/socketace.vp06HeaderWrite"}],
  "instances": inst,
  "bounds": {
-  "inputs": "four byte-string templates per role (well-formed pair; several versions / odd case / reordered headers; unsupported version or refusal; bare-LF lines with continuation and pipelined trailing bytes) with 1 (every offset), 2 (every offset of the first message quick / everywhere thorough) or 3 (first 8 offsets, thorough) arbitrary bytes replacing or inserted; every truncation of every template; fully arbitrary inputs of 0..3 (4 thorough) bytes; first lines of 4070..4200 extra bytes with an arbitrary byte at the 4096-byte buffer edge",
-  "segmentation": "single chunk compared with: one cut point within 3 bytes of the arbitrary bytes; every single cut point of each unmodified template; byte-by-byte delivery (truncations, arbitrary inputs); thorough: every pair of cut points",
+  "inputs": "four byte-string templates per role (well-formed pair; several versions / odd case / reordered headers; unsupported version or refusal; bare-LF lines with continuation and pipelined trailing bytes) with 1 (every offset), 2 (every offset of the first message quick / every offset of the main template thorough, except offsets 118..126 of the server's, inside the second request's Connection value, which exhaust the budget) or 3 (first 8 offsets, thorough) arbitrary bytes replacing (1 also inserted); every truncation of every template; fully arbitrary inputs of 0..3 (4 thorough) bytes; first lines of 4070..4200 extra bytes with an arbitrary byte at the 4096-byte buffer edge",
+  "segmentation": "single chunk compared with: one cut point within 3 bytes of the arbitrary bytes; every single cut point of each unmodified template; byte-by-byte delivery (truncations, arbitrary inputs); thorough: every pair of cut points of the client-side main template",
   "roles": "server (NewServerConnection, no certificate manager, plain carrier) and client (NewClientConnection on a carrier already reported secure, so StartTLS is not attempted - C04 covers it)"
  },
  "assumptions": [
